@@ -404,6 +404,7 @@ func (s *Server) EstablishConnection(listener string, c net.Conn) error {
 // attachClient validates an incoming client connection and if viable, attaches the client
 // to the server, performs session housekeeping, and reads incoming packets.
 func (s *Server) attachClient(cl *Client, listener string) error {
+	verifPoint("attach.start")
 	defer s.Listeners.ClientsWg.Done()
 	s.Listeners.ClientsWg.Add(1)
 
@@ -425,6 +426,7 @@ func (s *Server) attachClient(cl *Client, listener string) error {
 
 		return packets.ErrServerBusy
 	}
+	verifPoint("attach.afterLimitCheck")
 
 	code := s.validateConnect(cl, pk) // [MQTT-3.1.4-1] [MQTT-3.1.4-2]
 	if code != packets.CodeSuccess {
@@ -449,13 +451,16 @@ func (s *Server) attachClient(cl *Client, listener string) error {
 		return packets.ErrBadUsernameOrPassword
 	}
 
+	verifPoint("attach.beforeIncr")
 	atomic.AddInt64(&s.Info.ClientsConnected, 1)
 	defer atomic.AddInt64(&s.Info.ClientsConnected, -1)
 
 	s.hooks.OnSessionEstablish(cl, pk)
 
 	sessionPresent := s.inheritClientSession(pk, cl)
+	verifPoint("attach.afterInherit")
 	s.Clients.Add(cl) // [MQTT-4.1.0-1]
+	verifPoint("attach.afterClientsAdd")
 
 	err = s.SendConnack(cl, code, sessionPresent, nil) // [MQTT-3.1.4-5] [MQTT-3.2.0-1] [MQTT-3.2.0-2] &[MQTT-3.14.0-1]
 	if err != nil {
@@ -474,6 +479,7 @@ func (s *Server) attachClient(cl *Client, listener string) error {
 	s.hooks.OnSessionEstablished(cl, pk)
 
 	err = cl.Read(s.receivePacket)
+	verifPoint("attach.readReturned")
 	if err != nil {
 		s.sendLWT(cl)
 		cl.Stop(err)
@@ -1506,6 +1512,7 @@ func (s *Server) Close() error {
 	close(s.done)
 	s.Log.Info("gracefully stopping server")
 	s.Listeners.CloseAll(s.closeListenerClients)
+	verifPoint("close.afterCloseAll")
 	s.hooks.OnStopped()
 	s.hooks.Stop()
 
@@ -1515,7 +1522,9 @@ func (s *Server) Close() error {
 
 // closeListenerClients closes all clients on the specified listener.
 func (s *Server) closeListenerClients(listener string) {
+	verifPoint("close.beforeSnapshot")
 	clients := s.Clients.GetByListener(listener)
+	verifPoint("close.afterSnapshot")
 	for _, cl := range clients {
 		_ = s.DisconnectClient(cl, packets.ErrServerShuttingDown)
 	}
